@@ -62,6 +62,7 @@ func checkC16(r *core.Run) {
 	c16Locks(r, p)
 	c16Flags(r, p)
 	blockdbFlushDrains(r, p, "R-C16-flags")
+	c16Retention(r, p)
 }
 
 func c16Layouts(r *core.Run, p *core.Program, wo, lb *ssa.Function) {
@@ -683,4 +684,92 @@ func c16Flags(r *core.Run, p *core.Program) {
 		}
 	}
 	r.Check(okCh, rule, "branch-deletion/descendants-invalid", "-", "every descendant of a deleted branch is marked invalid in the store", "deleting a branch does not mark the descendants invalid (the hash passed to BlockInvalid is not a child's)")
+}
+
+// c16Retention: with DataFilesKeep = k the store keeps the data files max-k .. max. The two places that drop
+// old files must agree on that boundary: the roll-over removes file (max - k) just before max is incremented
+// (i.e. newmax - k - 1), and the start-up clean-up starts at (max - k) - 1 and walks down. A clean-up that
+// starts one higher deletes a file whose blocks are still listed in the index.
+func c16Retention(r *core.Run, p *core.Program) {
+	const rule = "R-C16-position"
+	wo := p.Func("lib/chain.(*BlockDB).writeOne")
+	lb := p.Func("lib/chain.(*BlockDB).LoadBlockIndex")
+	if wo == nil || lb == nil {
+		r.Fail(rule, "retention-boundary", "-", "writeOne / LoadBlockIndex not found")
+		return
+	}
+	const bound = "(param#0.maxdatfileidx - param#0.data_files_keep)"
+	var probs []string
+	// roll-over: removeDatFile(max - keep) strictly before the increment of max
+	okRoll := false
+	var rm, inc ssa.Instruction
+	an.Instrs(wo, func(i ssa.Instruction) {
+		switch x := i.(type) {
+		case ssa.CallInstruction:
+			if an.CallName(x) == "(*lib/chain.BlockDB).removeDatFile" && len(x.Common().Args) == 2 && an.Expr(x.Common().Args[1]) == bound {
+				rm = i
+			}
+		case *ssa.Store:
+			if an.Expr(x.Addr) == "&param#0.maxdatfileidx" && an.Expr(x.Val) == "(param#0.maxdatfileidx + 1)" {
+				inc = i
+			}
+		}
+	})
+	if rm != nil && inc != nil {
+		if rm.Block() == inc.Block() {
+			okRoll = rm.Pos() < inc.Pos()
+		} else {
+			// the increment is reachable from the removal and not the other way round
+			reach := func(from, to *ssa.BasicBlock) bool {
+				seen := map[*ssa.BasicBlock]bool{}
+				var walk func(x *ssa.BasicBlock) bool
+				walk = func(x *ssa.BasicBlock) bool {
+					for _, sc := range x.Succs {
+						if sc == to {
+							return true
+						}
+						if !seen[sc] {
+							seen[sc] = true
+							if walk(sc) {
+								return true
+							}
+						}
+					}
+					return false
+				}
+				return walk(from)
+			}
+			okRoll = reach(rm.Block(), inc.Block()) && !reach(inc.Block(), rm.Block())
+		}
+	}
+	if !okRoll {
+		probs = append(probs, "the roll-over does not remove file (max - keep) before incrementing max")
+	}
+	// start-up: removeDatFile(i - 1) with i starting at (max - keep)
+	okStart := false
+	for _, c := range an.CallsTo(lb, false, "(*lib/chain.BlockDB).removeDatFile") {
+		a := c.Common().Args[1]
+		bo, ok := a.(*ssa.BinOp)
+		if !ok || bo.Op != token.SUB || an.Expr(bo.Y) != "1" {
+			probs = append(probs, "the start-up clean-up removes file "+an.Expr(a)+" (expected the walking index minus one)")
+			continue
+		}
+		init := false
+		for _, leaf := range an.PhiLeaves(bo.X) {
+			e := an.Expr(leaf)
+			if e == bound {
+				init = true
+			} else if l2, ok := leaf.(*ssa.BinOp); !(ok && l2.Op == token.SUB && an.Expr(l2.Y) == "1") {
+				probs = append(probs, "the start-up clean-up index takes the value "+e)
+			}
+		}
+		if init {
+			okStart = true
+		}
+	}
+	if !okStart && len(probs) == 0 {
+		probs = append(probs, "the start-up clean-up does not start below (max - keep)")
+	}
+	sort.Strings(probs)
+	r.Check(len(probs) == 0, rule, "retention-boundary", p.Pos(lb.Pos()), "roll-over drops max-keep before incrementing max; start-up drops max-keep-1 and below", strings.Join(probs, "; "))
 }
